@@ -751,6 +751,19 @@ func (e *evalEnv) evalCall(n *ast.CallExpr) Value {
 				return boolV(e.quant(id.Name, n))
 			case "unchanged":
 				return boolV(e.unchanged(n))
+			case "haskey":
+				// haskey(m, k): k is present in map m
+				m := e.eval(n.Args[0])
+				mt, ok := m.T.Underlying().(*types.Map)
+				if !ok {
+					e.fail(n, "haskey: need a map")
+				}
+				k := e.eval(n.Args[1])
+				if len(k.L) == 1 {
+					k, _ = e.coerce(k, Value{T: mt.Key(), L: []*Term{x.zeroLeaf(LayoutOf(mt.Key()).Leaves[0].Sort)}})
+				}
+				pn, ps := x.mapPresent(e.st, mt)
+				return boolV(c.And(c.Distinct(m.L[0], c.IntLit(0)), c.Select(c.Select(x.comp(e.st, pn, ps), m.L[0]), x.mapKey(mt, k))))
 			case "samemap":
 				// samemap(m): the map m denotes has the same entries as in the pre-state
 				if e.old == nil {
